@@ -15,6 +15,8 @@ ap.add_argument("--only", default="")
 ap.add_argument("--no-suite", action="store_true")
 ap.add_argument("--seeded", action="store_true")
 ap.add_argument("--rerun", action="store_true", help="re-run entries already present in RESULTS.json")
+ap.add_argument("--commit", default="HEAD", help="harness sources of this /verif commit (default HEAD)")
+ap.add_argument("--out", default="", help="write results to this file instead of <dir>/RESULTS.json")
 a = ap.parse_args()
 V = "/verif"
 if a.seeded:
@@ -28,7 +30,7 @@ if a.seeded:
 else:
     D = V + "/sensitivity"
     idx = {k: dict(v, patch=os.path.join(D, k + ".diff")) for k, v in json.load(open(D + "/INDEX.json")).items()}
-RES = D + "/RESULTS.json"
+RES = a.out or (D + "/RESULTS.json")
 res = json.load(open(RES)) if os.path.exists(RES) else {}
 names = [n for n in idx if (not a.only or n in a.only.split(","))]
 if not a.rerun:
@@ -41,7 +43,7 @@ if os.environ.get("VERIF_SNAP_WORKTREE"):
 else:
     # default: the committed harness (HEAD), so that half-finished edits in the working tree cannot break a sweep
     os.makedirs(SNAP, exist_ok=True)
-    subprocess.run(f"git -C {V} archive HEAD harness | tar -x -C {SNAP} --strip-components=1", shell=True, check=True)
+    subprocess.run(f"git -C {V} archive {a.commit} harness | tar -x -C {SNAP} --strip-components=1", shell=True, check=True)
 os.environ["VERIF_HARNESS_SRC"] = SNAP
 lock = threading.Lock()
 slots = list(range(a.slot_base, a.slot_base + a.slots))
